@@ -256,6 +256,14 @@ def source_monotonicity(spec, acc):
         target = rnd.choice([m for m in mods if m != me and not me.startswith(m + ".")])
         parent, _, leaf = target.rpartition(".")
         stmt = rnd.choice([f"import {target}", f"from {parent} import {leaf}", f"from {parent} import {leaf} as zz"])
+        # often: one more name from a package the file already imports from in a statement of its own
+        froms = [ln.split()[1] for ln in tspec["files"][f].split("\n") if ln.startswith("from ") and not ln.startswith("from .")]
+        sibs = [m for m in mods if m != me and m.rpartition(".")[0] in froms]
+        if sibs and rnd.random() < 0.6:
+            target = rnd.choice(sibs)
+            parent, _, leaf = target.rpartition(".")
+            stmt = f"from {parent} import {leaf}"
+            acc.count("source_monotonicity_second_from_import_of_a_package")
         case = {"kind": "source_mono", "spec": tspec, "file": f, "stmt": stmt}
         HUB.case = case
         root = trees.write_tree(tspec)
@@ -396,6 +404,8 @@ def floors(acc, tier):
             why.append(f"{law}: only {acc.counters[law]} instances checked")
     if acc.counters["regex_families_with_reused_rule_objects"] < 30:
         why.append(f"regex families with re-used rule objects: {acc.counters['regex_families_with_reused_rule_objects']}")
+    if acc.counters["source_monotonicity_second_from_import_of_a_package"] < 10:
+        why.append("too few appended from-imports of a package the file already imports from")
     if acc.counters["source_monotonicity_pairs"] < 50:
         why.append(f"source-level monotonicity pairs: {acc.counters['source_monotonicity_pairs']}")
     h = acc.hists.get("family_kind", {})
